@@ -94,11 +94,8 @@ impl parsing::Span<'_> {
 
 /// Format a duration in the given unit as a Span string
 pub fn format_arrow_duration_as_span(value: i64, unit: TimeUnit) -> String {
-    let (value, sign) = if value < 0 {
-        (-value, "-")
-    } else {
-        (value, "")
-    };
+    let sign = if value < 0 { "-" } else { "" };
+    let value = value.unsigned_abs();
 
     match unit {
         TimeUnit::Second => format!("{sign}PT{value}s"),
